@@ -98,7 +98,7 @@ func (w *World) opManPush(op Op) *Resp {
 	}
 	r := w.do(reqSpec{method: "PUT", path: "/v2/" + repo + "/manifests/" + ref, query: q.Encode(), hdr: hdr, body: body,
 		unknownLen: op.Len == "unknown", repos: []string{repo}})
-	if r.Panicked || w.quiet {
+	if r.Panicked || w.quiet || w.faulted(r, repo) {
 		return r
 	}
 	now := w.now()
@@ -331,7 +331,7 @@ func (w *World) opGet(op Op) *Resp {
 		}
 		path := "/v2/" + repo + "/blobs/" + d
 		r := w.do(reqSpec{method: method, path: path, hdr: hdr, repos: []string{repo}})
-		if r.Panicked || w.quiet {
+		if r.Panicked || w.quiet || w.faulted(r, repo) {
 			return r
 		}
 		if !validDigest(d) {
@@ -397,7 +397,7 @@ func (w *World) opGet(op Op) *Resp {
 		}
 		path := "/v2/" + repo + "/manifests/" + ref
 		r := w.do(reqSpec{method: method, path: path, hdr: hdr, repos: []string{repo}})
-		if r.Panicked || w.quiet {
+		if r.Panicked || w.quiet || w.faulted(r, repo) {
 			return r
 		}
 		if op.Mode == "man" && !validDigest(d) {
@@ -474,7 +474,7 @@ func (w *World) opDelete(op Op) *Resp {
 			pre = w.observe(repo)
 		}
 		r := w.do(reqSpec{method: "DELETE", path: "/v2/" + repo + "/blobs/" + d, repos: []string{repo}})
-		if r.Panicked || w.quiet {
+		if r.Panicked || w.quiet || w.faulted(r, repo) {
 			return r
 		}
 		if off {
@@ -505,9 +505,7 @@ func (w *World) opDelete(op Op) *Resp {
 				}
 			}
 		default:
-			if r.is2xx() {
-				w.x.viol([]string{"C16"}, "iso.visible-elsewhere", "DELETE blob", fmt.Sprintf("DELETE of blob %s never pushed to %s answered %d", d, repo, r.Code))
-			}
+			// the status of deleting a blob the repository never held is not claimed by any property
 		}
 		return r
 	case "tag", "man":
@@ -526,7 +524,7 @@ func (w *World) opDelete(op Op) *Resp {
 			pre = w.observe(repo)
 		}
 		r := w.do(reqSpec{method: "DELETE", path: "/v2/" + repo + "/manifests/" + ref, repos: []string{repo}})
-		if r.Panicked || w.quiet {
+		if r.Panicked || w.quiet || w.faulted(r, repo) {
 			return r
 		}
 		if off {
@@ -656,6 +654,9 @@ func (w *World) opTags(op Op) {
 	}
 	all := w.modelTags(repo)
 	r, tags, ok := w.tagPage(repo, q.Encode())
+	if w.faulted(r, repo) {
+		return
+	}
 	if r.Panicked {
 		first, _, _ := strings.Cut(r.PanicMsg, "\n")
 		w.x.viol([]string{"C03"}, "taglist.param", fmt.Sprintf("n=%s -> panic", classifyN(op.N)), fmt.Sprintf("tag list with n=%q last=%q panicked: %s", op.N, op.Last, first))
@@ -708,6 +709,9 @@ func (w *World) opTags(op Op) {
 				return
 			}
 			r2, t2, ok2 := w.tagPage(repo, u.RawQuery)
+			if w.faulted(r2, repo) {
+				return
+			}
 			if !ok2 {
 				w.x.viol([]string{"C03"}, "taglist.paging", "next page failed", fmt.Sprintf("following %q answered %d", link, r2.Code))
 				return
@@ -828,7 +832,7 @@ func (w *World) opRefs(op Op) {
 	}
 	limit := w.k.refLimit()
 	r, descs, ok := w.refPage(repo, subj, q.Encode())
-	if r.Panicked || w.quiet {
+	if r.Panicked || w.quiet || w.faulted(r, repo) {
 		return
 	}
 	if !w.k.referrerOn() {
@@ -882,6 +886,9 @@ func (w *World) opRefs(op Op) {
 			return
 		}
 		r2, d2, ok2 := w.refPage(repo, subj, u.RawQuery)
+		if w.faulted(r2, repo) {
+			return
+		}
 		if !ok2 {
 			w.x.viol([]string{"C07"}, "referrers.chain", "next page failed", fmt.Sprintf("following %q answered %d", link, r2.Code))
 			return
@@ -1007,4 +1014,13 @@ func (w *World) checkDesc(x *MMan, d string, g descJSON) {
 		}
 		w.x.viol([]string{"C07"}, "referrers.descriptor", strings.Join(sigs, ","), fmt.Sprintf("descriptor of %s: %s", d, strings.Join(diffs, "; ")))
 	}
+}
+
+// faulted reports (and remembers) that an injected disk fault hit this request: nothing beyond the generic oracles is claimed then.
+func (w *World) faulted(r *Resp, repo string) bool {
+	if w.faultOverlapped(r) {
+		w.tainted[repo] = true
+		return true
+	}
+	return false
 }
